@@ -123,6 +123,19 @@ CHECKS = {
         design_ref="DESIGN.md section 3 C09, section 8.4q",
         technique="walker must-visit analysis: leaves derived from ADT facts vs visits in MIR (access paths through Option/Vec/variant contexts, helper and closure inlining), absence-edge path search per presence context, order by reachability",
     ),
+    "C20": dict(
+        category="other",
+        text="Decides only the report-coverage clause ('the area it reports is the sum of the library areas of its cells, flip-flops and RAM "
+             "macros'), structurally: compute_area builds AreaReport.total as exactly combinational + sequential + memory (the same three "
+             "values that are stored in those fields, each once); combinational is an accumulator updated on every iteration of a loop over "
+             "module.cells (no skipping adapter, no path around the update) by library.info(<that cell>.kind).area; sequential is "
+             "module.ffs.len() x ff_area(); memory is the bit count of every RAM block x sram_model().bit_area; the power totals depend on the "
+             "cell, flip-flop and RAM figures; compute_area / compute_power / compute_timing each read every component list of GateModule "
+             "(a new list is reported undecided). It does not decide the well-formedness of netlists (single driver, in-range references, "
+             "arity, acyclicity) nor that the reported depth is the longest combinational path: those quantify over run-time netlists.",
+        design_ref="DESIGN.md section 3 C20, section 8.4s",
+        technique="expression-tree shape of the report aggregate (summands resolved to named locals), must-pass-through of the accumulator update in the loop over cells, provenance coverage of the power totals, field-read coverage of the component lists",
+    ),
     "C23": dict(
         category="other",
         text="Decides the structural necessary conditions of `veryl migrate` keeping every token and comment except the for-loop index "
